@@ -199,6 +199,8 @@ func (s *schedRun) one(bno int, b SchedBehaviour) error {
 		}
 	}
 	defer func() { cache.VerifYield = nil }()
+	r.staleRisk = false
+	defer func() { r.staleRisk = false }()
 	r.TW.Emit("Quiet", M{"what": "schedule", "b": bno, "steps": len(b.Steps)})
 	actors := []string{}
 	started := map[string]bool{}
@@ -296,6 +298,11 @@ func (s *schedRun) one(bno int, b SchedBehaviour) error {
 			}
 		case "RAttachNew", "RAttachShared", "RAttachCold":
 			a := st.Arg
+			s.mu.Lock()
+			if s.snap[a] != s.over.Load() || (started["w"] && s.where("w") != "done") {
+				r.staleRisk = true
+			}
+			s.mu.Unlock()
 			if s.where(a) == "@tryR" {
 				s.advance(a)
 			} else if s.where(a) == "@begin" {
@@ -356,7 +363,13 @@ func (s *schedRun) one(bno int, b SchedBehaviour) error {
 				} else {
 					s.px.SetPlan(proxy.Plan{})
 				}
+				before := s.over.Load()
 				r.Apply(batch)
+				if s.over.Load() == before {
+					// refused before a storage transaction was opened (e.g. an id twice in the batch): the log
+					// still has a write line for it, and versions are counted in write lines
+					s.over.Add(1)
+				}
 				s.px.SetPlan(proxy.Plan{})
 			})
 			if !started["w"] {
@@ -403,6 +416,8 @@ func (s *schedRun) one(bno int, b SchedBehaviour) error {
 		r.TW.Emit("Err", M{"what": "ScheduleStuck", "err": errStr(fmt.Errorf("%v did not return", pending)), "a": 0, "b": 0})
 		return fmt.Errorf("actors %v did not return (goroutine dump follows)\n%s", pending, gate.Dump())
 	}
+	// the sequential read-back (every stored point, through a fresh transaction)
+	r.Get(r.allIDs())
 	// the answers, each with the version its storage transaction saw
 	for _, a := range []string{"r1", "r2", "r3"} {
 		cs, ok := s.found[a]
